@@ -87,7 +87,8 @@ def describe(beh):
                 elif k_ == "Malformed":
                     bits.append("malformed=" + f.get("class", ""))
                 elif k_ == "ClientInfo":
-                    bits.append("locale=" + str(f.get("locale")))
+                    loc = str(f.get("locale"))
+                    bits.append("locale=" + (loc if len(loc) <= 24 else "%s..(%d chars)" % (loc[:12], len(loc))))
             elif ev["e"] == "call" and ev["c"]["a"] in ("auth", "status"):
                 bits.append("%s->%s" % (ev["c"]["a"], ev["c"].get("ret")))
             elif ev["e"] == "call" and ev["c"]["a"] in ("discover", "filter", "select"):
@@ -176,6 +177,19 @@ def run(prop, tier):
             r0["result"] = "Err"
             fuzz.append({"why": "fuzz", "hist": [r0], "fuzz": True})
         sel = sel + fuzz
+        # the one client string that is processed AFTER decoding: the locale of Client Information goes through the localization service when the
+        # player cannot be routed (or is timed out). Unusual locales on complete, honest logins that end in the localized Disconnect (same weak oracle)
+        noroute = [b for b in honest if any(ev["e"] == "tx" and ev["p"].get("k") == "Disconnect" for ev in b["hist"][0]["obs"])
+                   and any(ev["e"] == "rx" and ev["f"].get("k") == "ClientInfo" for ev in b["hist"][0]["obs"])]
+        weird = ["\u00e9_fr", "\u6c49_CN", "\U0001F600_\U0001F600", "_", "__", "de_", "_DE", "a_b_c_d_e_f_g_h", "\u00e9" * 8 + "_x", "_" * 9900, "a_" * 4900, "x" * 9900,
+                 "\u6c49_" * 2400, "de_DE\x00", " de_DE", "de-DE", "DE_de"]
+        for b in noroute[:3]:
+            for w in weird:
+                r0 = json.loads(json.dumps(b["hist"][0]))
+                for ev in r0["obs"]:
+                    if ev["e"] == "rx" and ev["f"].get("k") == "ClientInfo":
+                        ev["f"]["locale"] = w
+                sel.append({"why": "locale", "hist": [r0], "fuzz": True})
     if prop == "C10":
         # wall-clock dependence: two histories whose first connection spends 3.2 real seconds in discovery (the issued cookie must carry the
         # time of issue, not the time the login started)
@@ -190,6 +204,13 @@ def run(prop, tier):
         args.append("--fanout-full")
     vlib.run_bin(hx, args, timeout=3000)
     observed = vlib.read_ndjson(outp)
+    if prop == "C04":
+        # rounds of the locale family are tagged: the single-request bound there allows a pointer-sized record per byte of the processed string
+        for o in observed:
+            if sel[o["i"]].get("why") == "locale":
+                for h in o["hist"]:
+                    h["procFactor"] = 64
+        vlib.write_ndjson(outp, observed)
     # code -> spec: the recorded histories are judged by the property-level layer of the specification
     tr = vlib.run_tlc("Trace_ConnProps", "Trace_ConnProps.cfg", wd, workers=1, timeout=1800, markers=("FAIL", "NOTCONSUMED"),
                       env_extra={"TRACE": outp, "PROP": prop}, java_opts=["-Xss1g", "-Dtlc2.tool.queue.IStateQueue=StateDeque"])
